@@ -417,6 +417,27 @@ mod verif_tree_kani {
         core::mem::forget(m);
     }
 
+    //@harness props=C08,C12 kind=bounded fns=Evaluator::evaluate_unary,LuaValue::length bound="ENUMERATED: `#s` for the string constants \"\\xC3\\xA9\" (one 2-byte character) and \"ab\"" budget=400
+    //@ desc="`#s` on a string constant folds to the number of BYTES of the string"
+    #[kani::proof]
+    #[kani::unwind(6)]
+    fn vk_tree_eval_length_bytes() {
+        let e1 = UnaryExpression::new(UnaryOperator::Length, StringExpression::from_value(vec![0xC3u8, 0xA9]));
+        match Evaluator::default().evaluate_unary(&e1) {
+            LuaValue::Number(n) => assert!(n == 2.0, "O-val: # counts bytes"),
+            LuaValue::Unknown => {}
+            _ => assert!(false, "# gives a number or Unknown"),
+        }
+        let e2 = UnaryExpression::new(UnaryOperator::Length, StringExpression::from_value(vec![b'a', b'b']));
+        match Evaluator::default().evaluate_unary(&e2) {
+            LuaValue::Number(n) => assert!(n == 2.0, "O-val: # counts bytes"),
+            LuaValue::Unknown => {}
+            _ => assert!(false, "# gives a number or Unknown"),
+        }
+        kani::cover!(true);
+        core::mem::forget((e1, e2));
+    }
+
     // MEASURED, out of reach: has_side_effects / if_expression_has_side_effects -- a harness over
     // 8 ENUMERATED if-expressions (conditions and results over {true, false, call}) does not finish
     // in 400 s (mutual recursion has_side_effects <-> evaluate over the large Expression enum).
